@@ -246,9 +246,49 @@ def scenarios(rng, tier, runner):
     out += sample_scenarios(rng, 6 if tier == "quick" else 150)
     return out
 
+def _section3(m):
+    """the descriptors of Section 3 of a (possibly damaged) message, read leniently; [] when they cannot be found"""
+    try:
+        i = m.find(b"BUFR")
+        if i < 0 or len(m) < i + 8:
+            return []
+        ed = m[i + 7]; pos = i + 8
+        n1 = int.from_bytes(m[pos:pos + 3], "big")
+        if n1 < 8 or pos + n1 > len(m):
+            return []
+        has2 = bool(m[pos + (9 if ed >= 4 else 7)] & 0x80)
+        pos += n1
+        if has2:
+            n2 = int.from_bytes(m[pos:pos + 3], "big")
+            if n2 < 4 or pos + n2 > len(m):
+                return []
+            pos += n2
+        n3 = int.from_bytes(m[pos:pos + 3], "big")
+        if n3 < 7 or pos + n3 > len(m):
+            return []
+        s3 = m[pos:pos + n3]
+        return [((s3[7 + 2 * k] >> 6) * 100000) + ((s3[7 + 2 * k] & 63) * 1000) + s3[8 + 2 * k] for k in range((n3 - 7) // 2)]
+    except Exception:
+        return []
+
 def _outside_model(scn):
-    """nothing the generators of this module produce is outside the model any more (data present bit-map operators
-    2 21 … 2 37 were, until BufrModel/Bitmap.lean); the sample messages carry their own `nomodel` mark"""
+    """a replication descriptor over ZERO descriptors (1 00 YYY; FM 94 has X >= 1) is outside the model: the
+    library's bufr_assign_descriptors is a do-while and flags one node beyond such a "replication" as passed over,
+    the model's expansion takes the X = 0 nodes the descriptor names.  Such inputs run on the implementation alone
+    (sanitizers, outcome oracle).  Found by the thorough tier on a damaged sample message.  (Data present bit-map
+    operators were outside the model until BufrModel/Bitmap.lean.)"""
+    for l in scn.lines:
+        t = l.split()
+        ds = []
+        if t and t[0] == "ds.decode" and len(t) >= 9:
+            ds = [int(d) for d in t[7].split(",") if d.isdigit()]
+        elif t and t[0] == "ds.decodemsg" and len(t) == 2 and t[1] not in ("-", "@"):
+            try:
+                ds = _section3(bytes.fromhex(t[1]))
+            except ValueError:
+                ds = []
+        if any(d // 100000 == 1 and d // 1000 % 100 == 0 for d in ds):
+            return True
     return False
 
 def compare(scn, lscn, cr, lr):
